@@ -343,6 +343,37 @@ func ZZ_C06_jwt_generate() {
 			zz.Assert(kid == "server-key", "generate: kid of the configured JWK")
 		}
 	}
+	// freshness inside one session lineage: the refresh grant mints again from the stored session, possibly in
+	// the same second. With a deterministic signature (RS256, HS256) two tokens are the same string exactly
+	// when their claims are equal, so the claims of the second mint must differ from those of the first.
+	{
+		sess := &oauth2.JWTSession{
+			JWTClaims: &jwt.JWTClaims{Subject: sub, Extra: map[string]interface{}{"tenant": "t1"}},
+			JWTHeader: &jwt.Headers{Extra: map[string]interface{}{"foo": "bar"}},
+			ExpiresAt: map[fosite.TokenType]time.Time{fosite.AccessToken: time.Now().Add(time.Hour)},
+		}
+		req := fosite.NewAccessRequest(sess)
+		req.Client = &fosite.DefaultClient{ID: "c1"}
+		req.GrantedScope = []string{"photos"}
+		a1, _, e1 := strat.GenerateAccessToken(ctx, req)
+		var next fosite.Requester = req
+		if zz.Choice("lineage", 2) == 1 {
+			// what the refresh handler does: a new request around a clone of the stored session
+			r2 := fosite.NewAccessRequest(sess.Clone())
+			r2.Client, r2.GrantedScope = req.Client, req.GrantedScope
+			next = r2
+		}
+		a2, _, e2 := strat.GenerateAccessToken(ctx, next)
+		zz.Assume(e1 == nil && e2 == nil)
+		t1, d1 := signer.Decode(ctx, a1)
+		t2, d2 := signer.Decode(ctx, a2)
+		zz.Assume(d1 == nil && d2 == nil)
+		j1, _ := t1.Claims["jti"].(string)
+		j2, _ := t2.Claims["jti"].(string)
+		zz.Observe("lineage.jti.distinct", j1 != j2)
+		zz.Cover("generate:second-mint-from-one-session", true)
+		zz.Assert(j1 != "" && j2 != "" && j1 != j2, "generate: two tokens minted from one session in the same second differ in their claims (jti)")
+	}
 	// alterations built from a second minted token
 	tok2, _, err2 := mint("admin", []string{"photos", "admin"})
 	zz.Assume(err2 == nil)
